@@ -4,6 +4,7 @@ CONSTANTS MaxDims, Lens, OneAxisMax, LargeN
 MCFromSet == AllShapes(MaxDims, Lens) \cup {<<n>> : n \in 2..OneAxisMax}
 Min(a, b) == IF a < b THEN a ELSE b
 MCLargeSet ==
-    UNION {{<<n, m, k>> : m \in {1, 2, n \div 2, n - 1, n},
+    \* (m = n - 100: the denominator C(n, m) is finite while numerator factors are not, or are exactly zero)
+    UNION {{<<n, m, k>> : m \in {1, 2, n \div 2, n - 1, n} \cup (IF n > 1000 THEN {n - 100} ELSE {}),
                           k \in {0, 1, 2, n \div 3, n \div 2, n - 1, n}} : n \in LargeN}
 =============================================================================
